@@ -96,7 +96,14 @@ int main(int argc, char **argv) {
     if (auto *AT = dyn_cast<ArrayType>(G.getValueType())) { g["nelem"] = (int64_t)AT->getNumElements(); g["elem_size"] = (int64_t)DL.getTypeAllocSize(AT->getElementType()); }
     if (G.hasInitializer()) {
       const Constant *In = G.getInitializer();
-      if (auto *CDA = dyn_cast<ConstantDataArray>(In)) { if (CDA->isString()) g["str"] = json::fixUTF8(CDA->getAsString()); }
+      if (auto *CDA = dyn_cast<ConstantDataArray>(In)) {
+        if (CDA->isString()) g["str"] = json::fixUTF8(CDA->getAsString());
+        else if (CDA->getElementType()->isIntegerTy(32) && CDA->getNumElements() <= 64) {
+          std::string w; bool ok = true;
+          for (unsigned k = 0; k < CDA->getNumElements(); k++) { uint64_t c = CDA->getElementAsInteger(k); if (c == 0 && k + 1 == CDA->getNumElements()) break; if (c == 0 || c > 126) { ok = false; break; } w.push_back((char)c); }
+          if (ok) g["wstr"] = w;
+        }
+      }
       else if (isa<ConstantPointerNull>(In) || isa<Function>(In) || isa<ConstantInt>(In) || isa<GlobalVariable>(In)) g["init"] = opnd(In, DL);
       g["zeroinit"] = In->isNullValue();
     }
